@@ -104,3 +104,14 @@ def register(claim):
           NOTE_COMMON + " Known finding (pinned by a test): a SequenceReset may move the counter backwards. E9 base mode assumes hooks do not disconnect/reset "
           "from inside the callback; arithmetic over multi-message histories (watermark values) is not decided.",
           "DESIGN.md#c04")
+
+    claim("C11", "finite abstract interpretation (E9) of _process_message / send_msg / disconnect over the full (state x role x message class x order x integrity x send kind) product; "
+          "suspension-window and dominance rules on disconnect, the read loop and the subclass entry points",
+          "Static, exhaustive over the abstract product: in every pre-Logon state an inbound non-Logon message reaches no hook but on_logout/on_disconnect, no "
+          "encoder, counter, journal or ACTIVE - only disconnect (a first non-Logon message drops without Logout); send_msg reaches the encoder in no down or "
+          "pre-Logon state for anything but Logon/Logout and refuses with FIXConnectionError; each integrity defect is silent to the application, ends "
+          "disconnected and sends a Logout exactly when the peer is identifiable; disconnect ends down, closes its guard before the first await and "
+          "reports once; the read loop re-tests the state before every decode; client/server entry points agree and never overwrite a live connection.",
+          NOTE_COMMON + " E9 base mode (hooks do not disconnect/reset from inside the callback; no other task's disconnect is in flight at dispatch); "
+          "bytes already buffered by asyncio's transport and value-level behaviour after the disconnect are not decided.",
+          "DESIGN.md#c11")
